@@ -265,7 +265,10 @@ Definition DIR (S : Z -> Z) (F : option Z) (ex : endpoint) (gx : eghost) (ey : e
   (* acknowledgement numbers y has sent are irs + 1 + (at most what it has received) *)
   (forall p, In p (ep_sent ey) -> r_control (snd p) <> CRst ->
      forall a, r_ack_number (snd p) = Some a ->
-     exists irs c, eg_K gy = Some irs /\ a = sq (irs + 1 + c) /\ 0 <= c <= eg_R gy).
+     exists irs c, eg_K gy = Some irs /\ a = sq (irs + 1 + c) /\ 0 <= c <= eg_R gy) /\
+  (* what y's application has been handed is the beginning of the stream *)
+  (l_len (ep_read ey) <= l_len (ep_written ex) /\
+   forall j, 0 <= j < l_len (ep_read ey) -> rznth (ep_read ey) j = S j).
 
 (* what is special about A (it connects: one initial sequence number, never listens) and B *)
 Definition ROLES (isn : Z) (ea : endpoint) (ga : eghost) (eb : endpoint) (gb : eghost) : Prop :=
@@ -810,16 +813,22 @@ Section RxDir.
   Notation Sx := (fun _ : nat => S).
   Notation Fx := (fun _ : nat => F).
 
+  Lemma rcv_count_bound gr s L :
+    ginv Sx Fx gr s -> g_irs gr <> None -> 0 <= L ->
+    (forall k, g_have gr k -> 0 <= k < L) -> rcv_count gr s <= L.
+  Proof.
+    intros Hg Hi HL Hh. pose proof (ginv_have Sx Fx gr s Hg Hi) as Hhave.
+    destruct (Z.leb_spec (rcv_count gr s) L); [lia|].
+    exfalso. assert (Hc : 0 <= L < rcv_count gr s) by lia.
+    specialize (Hh L (Hhave L Hc)). lia.
+  Qed.
+
   Lemma R_bound_synced gr s L :
     ginv Sx Fx gr s -> g_irs gr <> None -> 0 <= L ->
     (forall k, g_have gr k -> 0 <= k < L) -> rcv_nxt_off gr s <= L + 1.
   Proof.
-    intros Hg Hi HL Hh. pose proof (ginv_have Sx Fx gr s Hg Hi) as Hhave.
-    pose proof (rcv_nxt_off_nonneg S F F_nonneg gr s Hg Hi) as H0.
-    unfold rcv_nxt_off in *. pose proof (b2z_range (s_rx_fin_received s)) as Hb.
-    destruct (Z.leb_spec (rcv_count gr s) L); [lia|].
-    exfalso. assert (Hc : 0 <= L < rcv_count gr s) by lia.
-    specialize (Hh L (Hhave L Hc)). lia.
+    intros Hg Hi HL Hh. pose proof (rcv_count_bound gr s L Hg Hi HL Hh).
+    unfold rcv_nxt_off. pose proof (b2z_range (s_rx_fin_received s)). lia.
   Qed.
 
   (* x receives; [p] is the in-flight segment when the event is a segment *)
@@ -941,8 +950,8 @@ Section XStep.
     intros HEPx HEPy HDxy HDyx Hcout Hcin Hrun Hstep Hxf Hseg Hrecv gr' Hresync Hancsync.
     pose proof HEPx as (Hinv & Hcx & Hg & Htxl & Hrxl & Hjl & Hkl).
     pose proof HEPy as (_ & _ & _ & _ & _ & _ & Hkly).
-    pose proof HDxy as (Hpd & Hanc & Hhv & Hquiet & Hvv & HRL & Huu).
-    pose proof HDyx as (Hpd2 & Hanc2 & Hhv2 & Hquiet2 & Hvv2 & HRL2 & Huu2).
+    pose proof HDxy as (Hpd & Hanc & Hhv & Hquiet & Hvv & HRL & Huu & Hrd).
+    pose proof HDyx as (Hpd2 & Hanc2 & Hhv2 & Hquiet2 & Hvv2 & HRL2 & Huu2 & Hrd2).
     pose proof Hxf as (X1 & X2 & X3 & X4 & X5 & X6 & X7).
     pose proof (compat_F_nonneg _ _ _ Hcin) as HFnn.
     set (s := ep_sock ex) in *. set (cx := ep_cx ex) in *.
@@ -1025,7 +1034,8 @@ Section XStep.
       split; [exact Hrxl'|]. split; [exact Hjl' | exact Hkl'].
     - (* x -> y *)
       unfold DIR. cbn [eg_tx eg_rx eg_J eg_K eg_R next_g].
-      split; [|split; [|split; [|split; [|split; [exact Hvv'|split; [lia | exact Huu]]]]]].
+      split; [|split; [|split; [|split; [|split; [exact Hvv'|split; [lia | split; [exact Huu|]]]]]]];
+        [| | | |destruct Hrd as (Hrd1 & Hrd0); split; [lia | exact Hrd0]].
       + intros p Hin. rewrite X3 in Hin. apply in_app_or in Hin. destruct Hin as [Hin | Hin].
         * pose proof (Hpd p Hin) as Hgood.
           apply (pkt_good_mono _ _ _ (l_len (ep_written ex)) (eg_R gy)); [exact HLmono | lia|].
@@ -1050,7 +1060,7 @@ Section XStep.
         exists p. split; [reflexivity|]. split; [reflexivity|].
         apply (deliver_facts Sin Fin ex gx ey gy p irs HEPx HDyx Hin Hage Ei). }
       assert (HL0 : 0 <= l_len (ep_written ey)) by apply TcpRecvBase.l_len_nonneg.
-      split; [|split; [|split; [exact Hhv2'|split; [|split; [lia|split]]]]].
+      split; [|split; [|split; [exact Hhv2'|split; [|split; [lia|split; [|split]]]]]].
       + intros p Hin. apply (pkt_good_mono _ _ _ (l_len (ep_written ey)) (eg_R gx)); [lia | exact HRmono|].
         apply Hpd2. exact Hin.
       + intros j k Hj HK. unfold K', next_K in HK. destruct (eg_K gx) as [k0|] eqn:EK.
@@ -1091,5 +1101,19 @@ Section XStep.
         * destruct (wire_out out) as [q|] eqn:Ew; cbn in Hin; [|contradiction].
           destruct Hin as [<- | []]. destruct (wire_out_emitted _ _ Ew) as (He & _).
           apply (uu_new Sin Fin HFnn gr' s' K' R' q (Hack q He) Hkl' Hn a Ha).
+      + (* what x has read *)
+        destruct (g_irs gr') as [irs'|] eqn:Ei'.
+        * assert (Hne : g_irs gr' <> None) by congruence.
+          rewrite <- (proj1 Hrxl' Hne).
+          pose proof (rcv_count_bound Sin Fin HFnn gr' s' _ Hg' ltac:(congruence) HL0 (fun k Hk => proj2 (Hhv2' k Hk))) as Hb.
+          unfold ginv in Hg'. rewrite Ei' in Hg'. destruct Hg' as (((Hwf' & _) & _) & (Hl & Hd)).
+          destruct Hwf' as (Hl0 & _). unfold rcv_count in Hb. fold s gr gr'. split; [lia|].
+          intros j Hj. apply Hd. lia.
+        * assert (Hsame : ep_read ex' = ep_read ex).
+          { rewrite X5. unfold log_read. destruct ev; try reflexivity. destruct out; try reflexivity. exfalso.
+            unfold gr' in Ei'. cbn [ghost_step g_irs] in Ei'.
+            unfold ginv in Hg. fold gr in Ei'. rewrite Ei' in Hg. destruct Hg as (Hu & _).
+            cbn [tcp_step] in Hstep. rewrite (recv_unsynced s n Hu) in Hstep. discriminate. }
+          rewrite Hsame. exact Hrd2.
   Qed.
 End XStep.
